@@ -43,7 +43,8 @@ THEOREMS = [
     "IrVerif.Scope.C03_pure_frame",
     "IrVerif.Scope.C03_roundtrip_ext_graph",
     "IrVerif.Scope.C03_roundtrip_ext_devices",
-    "IrVerif.Scope.C03_roundtrip_ext_partial",
+    "IrVerif.Scope.C03_roundtrip_ext_model",
+    "IrVerif.Scope.C03_roundtrip_ext",
     "IrVerif.Scope.C03_ext_certificate_decidable",
 ]
 ASSUMPTIONS = [
@@ -55,9 +56,15 @@ ASSUMPTIONS = [
     "the real to_proto / from_proto are compared with serModelD / deserModelD on every case; that to_proto leaves "
     "the decorations of the real objects alone rests on the deep-snapshot oracle (C03_pure_decorated holds by "
     "construction of the model)",
-    "extended model (Model/ScopeExt.lean, scope.eser; main graph and nested graphs): merged value metadata, "
-    "quantization annotations, sharding values: differential only on the IR -> proto -> IR direction (serialized "
-    "proto, second serialization, reloaded IR incl. the extension state are compared on every case); the IR < 10 "
+    "extended model (Model/ScopeExt.lean, scope.eser / scope.meser): merged value metadata, quantization annotations, "
+    "sharding values. Its IR -> proto -> IR round trip is a theorem since round 5: C03_roundtrip_ext_graph / "
+    "C03_roundtrip_ext_devices (graphs; sharding values by identity) and C03_roundtrip_ext_model / C03_roundtrip_ext "
+    "(models with functions) under the certificates ReloadableE / ReloadableME (+ DevCertG / DevCertM for identity), "
+    "which every deserialized model satisfies (C17 side). ReloadableE has a decision procedure "
+    "(C03_ext_certificate_decidable, Model/ScopeCert.lean) that the driver evaluates on every generated IR model "
+    "(counter hyp_reloadable_ext; when it holds, the model's own reloaded-and-reserialized proto must equal the first: "
+    "counter ext_reload_fixpoint); ReloadableME / DevCert* are not evaluated by the driver. Serialized proto, second "
+    "serialization and reloaded IR incl. the extension state are compared with the real ones on every case; the IR < 10 "
     "experimental function value-info format is modelled on the C17 side (scope.mdeser9) and oracle-only here",
     "graphs nest as a tree (a Graph object shared between two attributes is outside the model)",
     "OUTSIDE the property as checked (hypotheses of the theorems and gate of the isomorphism oracle): a graph that "
